@@ -43,11 +43,13 @@ def minimise(mod, cfg, decisions, res, budget_s=20.0):
     tried = 0
     best = (cfg, decisions, res)
 
-    def attempt(c, d):
+    def attempt(c, d, max_segments=None):
         nonlocal tried, best
         tried += 1
         r = mod.run_config(c, decisions=d)
         if _same(mod, r, target):
+            if max_segments is not None and len(_segments(r.get("decisions") or [])) > max_segments:
+                return False        # still fails, but is not simpler
             best = (c, r.get("decisions") if d is not None else None, r)
             return True
         return False
@@ -68,23 +70,28 @@ def minimise(mod, cfg, decisions, res, budget_s=20.0):
         lo, hi = 0, len(d)
         while lo < hi and time.time() < t_end:
             mid = (lo + hi) // 2
-            if attempt(best[0], d[:mid]):
+            if attempt(best[0], d[:mid], max_segments=len(_segments(best[1]))):
                 hi = mid
                 d = d[:mid]
             else:
                 lo = mid + 1
-        progress = True
-        while progress and time.time() < t_end:
-            progress = False
+        # ddmin over the run-length segments of the schedule: drop chunks of
+        # segments (the dropped steps are re-scheduled by the replay chooser's
+        # fallback: continue the current actor, else the first runnable one),
+        # halving the chunk size down to single segments
+        chunk = max(1, len(_segments(best[1])) // 2)
+        while chunk >= 1 and time.time() < t_end:
             segs = _segments(best[1])
-            order = sorted(range(len(segs)), key=lambda i: -segs[i][1])
-            for i in order:
-                if time.time() >= t_end:
-                    break
-                cand = _flatten(segs[:i] + segs[i + 1:])
-                before = len(_segments(best[1]))
-                if attempt(best[0], cand):
-                    if len(_segments(best[1])) < before:
-                        progress = True
-                        break
+            improved = False
+            i = 0
+            while i < len(segs) and time.time() < t_end:
+                cand = _flatten(segs[:i] + segs[i + chunk:])
+                before = len(segs)
+                if attempt(best[0], cand, max_segments=before - 1):
+                    segs = _segments(best[1])
+                    improved = True
+                else:
+                    i += chunk
+            if not improved or chunk > 1:
+                chunk //= 2
     return best + (tried,)
